@@ -13,6 +13,8 @@ Require Import V.Oracle.C09Oracle.
 Require Import V.Oracle.C10Oracle.
 Require Import V.Proofs.C09OracleProofs.
 Require Import V.Proofs.C10OracleProofs.
+Require Import V.Proofs.C10ImagesProofs.
+Require Import V.Proofs.C10CountersProofs.
 Open Scope Z_scope.
 
 (* ---- C10_total: whatever the state and the operation - any driver event with any field values, an overrun or
@@ -129,19 +131,12 @@ Proof. intros. apply close_handler_once. auto. Qed.
 Print Assumptions C10_close_handler_once.
 
 (* ---- the oracle on the model ---- *)
-(* Full statement (the three judges of Oracle/C10Oracle.v together):
-     forall c0 now0 tdrv tis ops, Forall tick_ok ops ->
-       holds_c10 c0 now0 tdrv tis ops (run_obs c0 now0 tdrv tis ops) = true.
-   Proved below for the core judge (totality, fault reports, close handler at most once / fired after close, API and
-   handles after the close) over every history whose clock does not run backwards. Missing: the two sequential judges
-   c10_imgs_run (each announced image gets exactly one unavailable callback) and c10_ctrs_run (each live counter gets
-   exactly one unavailable callback at the close) are not yet connected to the model by a simulation; what they
-   check is proved about the model directly in C10_close_callbacks (per close) and C10_close_handler_once, and they
-   are evaluated on the model's observations of every generated history in each run of the check. *)
-Theorem C10_oracle_model_partial : forall c0 now0 tdrv tis ops,
-  Forall tick_ok ops -> c10_core_run c0 tdrv tis (winit now0) ops (run_obs c0 now0 tdrv tis ops) = true.
-Proof. exact c10_core_model. Qed.
-Print Assumptions C10_oracle_model_partial.
+(* the three judges of Oracle/C10Oracle.v are true on the model's own observations, for every history whose clock does
+   not run backwards (tick_ok: every Tick d has 0 <= d) *)
+Theorem C10_oracle_model : forall c0 now0 tdrv tis ops,
+  Forall tick_ok ops -> holds_c10 c0 now0 tdrv tis ops (run_obs c0 now0 tdrv tis ops) = true.
+Proof. intros. unfold holds_c10. rewrite c10_core_model by assumption. rewrite c10_imgs_model, c10_ctrs_model. reflexivity. Qed.
+Print Assumptions C10_oracle_model.
 
 (* ---- the hypotheses are satisfiable: a history with faults, every kind of resource and a close ---- *)
 Definition ex_faults : list op :=
